@@ -237,6 +237,18 @@ theorem detach_once (cfg : Cfg) (s s' : State) (pw b : Nat) (why : Why) (size : 
   refine ⟨P, B, hP, hB, hc, hd, ?_, { B with detached := some why }, by simp, rfl⟩
   intro h; subst h; simpa [whyOk] using hw
 
+/-- **retry_matches_source** — the model's retry decision `afterAttempt` is the loop of `(*partitionWriter).writeBatch` as it
+stands in writer.go (regenerated on every run): another attempt is made exactly when the attempt failed, the error
+is temporary or a transient network error, and the attempt counter stays below MaxAttempts. -/
+theorem retry_matches_source (cfg : Cfg) (b k : Nat) (code : Code) (temp trans : Bool)
+    (hcls : cfg.retriable code = (temp || trans)) :
+    (afterAttempt cfg b k code = .ready b (k + 1)) ↔ Gen.retryAgain (code == 0) temp trans k cfg.maxAttempts = true := by
+  unfold afterAttempt Gen.retryAgain
+  by_cases h0 : code = 0
+  · subst h0; simp
+  · by_cases hr : cfg.retriable code = true <;> by_cases hk : k + 1 < cfg.maxAttempts
+    all_goals (rw [hcls] at hr; cases temp <;> cases trans <;> simp_all)
+
 /-- **completion_before_done** — `complete` (closing batch.done, which lets WriteMessages return) is enabled only
 after the Completion callback ran when one is configured, and with the same error. -/
 theorem completion_before_done (cfg : Cfg) (s s' : State) (pw b : Nat) (code : Code)
